@@ -1010,11 +1010,13 @@ class Consumer(object):
                 break
             else:
                 yield d
-                if self._start_d is None or self._start_d.called:
-                    # Stopped, or the processor failed and the failure was
-                    # reported via the start() deferred. Don't feed it any
-                    # further messages (from this or any later fetch), lest we
-                    # record and commit progress past an unprocessed block.
+                if self._stopping or self._start_d is None or self._start_d.called:
+                    # Stopping (stop() cancelled this block: it resumes us
+                    # before it clears the start() deferred), stopped, or the
+                    # processor failed and the failure was reported via the
+                    # start() deferred. Don't feed it any further messages
+                    # (from this or any later fetch), lest we record and
+                    # commit progress past an unprocessed block.
                     return
                 proc_block_begin = proc_block_end
                 proc_block_end += proc_block_size
